@@ -374,10 +374,12 @@ impl Prop for C10 {
                 }))?;
             }
             if mine() {
-              h.check(&mut mk("write-fail", &|r| {
+              // other error kinds a write can report: EIO, EPIPE, EFBIG, EDQUOT, EAGAIN, EBADF (rotating)
+            let errno = [5, 32, 27, 122, 11, 9][(w.seq % 6) as usize];
+            h.check(&mut mk("write-fail", &|r| {
                 r.plan.fails = vec![PointFail {
                     at: w.seq,
-                    errno: 5,
+                    errno,
                     after: None,
                 }]
               }))?;
